@@ -627,6 +627,15 @@ def forked(fn):
     return None
 
 
+def guarded_call(e, objs_factory):
+    """triage mode: make the call in a forked child first; raise CrashFound if it dies"""
+    if GUARD:
+        objs = objs_factory()
+        sig = forked(lambda: do_call(e, objs))
+        if sig is not None:
+            raise CrashFound(sig)
+
+
 def run_once(e, specs):
     """build fresh arguments, call, snapshot. -> ('ok', resultbytes, [lvalue snapshots], result, objs) | ('raise', type, msg)"""
     built = [s.build() for s in specs]
@@ -914,6 +923,15 @@ class Exerciser:
                 "kinds": {}, "scalar_checked": 0, "scalar_exact": 0, "scalar_ulp_max": 0, "scalar_ref": None,
                 "mismatch_len": None, "serial": None, "lengths": [], "threaded_runs": 0}
         full = o["full"] or (o.get("core_full") and is_core(e))
+        try:
+            return self.exercise_(e, rng, summ, full)
+        except CrashFound as cf:
+            summ["crashed_signal"] = cf.args[0]
+            self.out.put(summ)
+            return summ
+
+    def exercise_(self, e, rng, summ, full):
+        o = self.o
         combos = combos_for(e, rng, full)
         lengths_all = [0, 1, 7, 199, 200, 201, 257, 1000]
         dispatched_at = {}
@@ -962,6 +980,48 @@ class Exerciser:
         summ["kinds"][kinds] = summ["kinds"].get(kinds, 0) + 1
         if L not in summ["lengths"]:
             summ["lengths"].append(L)
+        try:
+            self.one_config_(e, specs, kinds, ds, L, rng, summ, full, dispatched_at)
+        except CrashFound as cf:
+            self.crash_triage(e, specs, kinds, ds, L, cf.args[0], summ)
+            raise
+
+    def crash_triage(self, e, specs, kinds, ds, L, sig, summ):
+        """the array call dies with a signal: does the scalar binding die too on one of the elements?"""
+        SHIM.clear()
+        how = self.scalar_counterpart(e)
+        tti = PY2TI[e.owner][1] if (e.ctor and e.owner in PY2TI) else None
+        before = [s.build() for s in specs]
+        vals = [readback(s, b[0]) for s, b in zip(specs, before)]
+        rd, wr = os.pipe()
+
+        def child():
+            for i in range(L):
+                sargs = [copy_elem(s.ti, (v[i] if s.kind == "array" else v)) for s, v in zip(specs, vals)]
+                os.write(wr, b"%d\n" % i)
+                try:
+                    scalar_eval(e, how, sargs, tti)
+                except Exception:
+                    pass
+        ssig = forked(child)
+        os.close(wr)
+        data = b""
+        while True:
+            chunk = os.read(rd, 1 << 16)
+            if not chunk:
+                break
+            data += chunk
+        os.close(rd)
+        idx = int(data.strip().split(b"\n")[-1]) if data.strip() else None
+        sargs = None
+        if ssig is not None and idx is not None:
+            sargs = [repr(v[idx] if s.kind == "array" else v) for s, v in zip(specs, vals)]
+        self.out.put({"t": "crash", "key": e.key, "sig": e.sig, "signal": sig, "kinds": kinds, "dataset": ds, "L": L,
+                      "scalar_how": how, "scalar_signal": ssig, "scalar_index": idx if ssig is not None else None,
+                      "scalar_args": sargs, "values": self.describe_values(specs), "seed": self.o["seed"]})
+
+    def one_config_(self, e, specs, kinds, ds, L, rng, summ, full, dispatched_at):
+        o = self.o
         SHIM.clear()
         ref = run_once(e, specs)
         summ["runs"] += 1
@@ -975,6 +1035,8 @@ class Exerciser:
                           "first_elements_run1": self.head(ref), "first_elements_run2": self.head(ref2),
                           "values": self.describe_values(specs)})
             summ["nondeterministic"] = summ.get("nondeterministic", 0) + 1
+            if ref[0] == "ok" and L <= 257:
+                self.scalar_check(e, specs, kinds, ds, L, ref, summ)
             return
         # the pool installed but a single range / small lengths: threshold
         plist = partitions(L, rng, o["threaded_reps"], full) if L > 200 else [([(0, L)], False, "single")]
@@ -1113,7 +1175,7 @@ class Exerciser:
                 return
         else:
             return
-        if how == "element-method" and not hasattr(vals[0][0] if vals[0] else None, scalar_name(e)):
+        if how == "element-method" and e.name != "ifelse" and not hasattr(vals[0][0] if vals[0] else None, scalar_name(e)):
             summ["scalar_ref"] = "none: element type has no method " + scalar_name(e)
             return
         if scalar_name(e) != e.name:
@@ -1127,9 +1189,24 @@ class Exerciser:
                 if how == "module":
                     r = fn(*sargs)
                 elif how == "ctor":
-                    r = tti.pycls()(*sargs) if tti.shape != "prim" else None
+                    if len(sargs) == 1 and specs[0].ti.n == tti.n and specs[0].ti.shape == tti.shape:
+                        # converting constructor: component-wise C++ conversion (float -> int truncates)
+                        comps = flat(specs[0].ti, sargs[0])
+                        if not tti.isfloat:
+                            comps = [wrap_int(tti.base, int(c)) if (c == c and not math.isinf(c)) else None for c in comps]
+                            if None in comps:
+                                continue
+                        elif tti.base == "f32":
+                            comps = [f32(float(c)) for c in comps]
+                        else:
+                            comps = [float(c) for c in comps]
+                        r = unflat(tti, comps) if tti.shape != "euler" else None
+                    else:
+                        r = tti.pycls()(*sargs) if tti.shape != "prim" else None
                     if r is None:
                         return
+                elif e.name == "ifelse" and len(sargs) == 3:
+                    r = sargs[0] if sargs[1] else sargs[2]       # choice[i] ? self[i] : other[i]
                 elif how == "builtin":
                     rr = builtin_ref(e.name, specs[0].ti, sargs[0], sargs[1:])
                     if rr is None:
@@ -1147,6 +1224,9 @@ class Exerciser:
                 return
             except Exception as ex:
                 continue                     # the scalar raises for this element (array did not): not comparable
+            if r is NotImplemented:
+                summ["scalar_ref"] = "none: scalar binding has no such overload (NotImplemented)"
+                return
             if ret_is_self and how in ("element-method",) and r is None:
                 r = sargs[0]
             got = target[i]
@@ -1284,6 +1364,13 @@ class Exerciser:
 
         def run():
             a, _ = spec.build()
+            if GUARD:
+                a2, _ = spec.build()
+                sig = forked(lambda: getattr(a2, e.name)(a2))
+                if sig is not None:
+                    self.out.put({"t": "crash", "key": e.key, "sig": e.sig, "signal": sig, "kinds": kinds, "L": L,
+                                  "scalar_signal": None, "note": "self passed as its own argument", "seed": self.o["seed"]})
+                    raise CrashFound(sig)
             try:
                 r = getattr(a, e.name)(a)
             except Exception as ex:
@@ -1332,6 +1419,14 @@ class Exerciser:
                             pre = [snap_obj(u if u is not None else o) if s.kind == "array" else None
                                    for s, (o, u) in zip(specs, built)]
                             res["cases"] += 1
+                            if GUARD:
+                                b2 = [s.build() for s in specs]
+                                sig = forked(lambda: do_call(e, [b[0] for b in b2]))
+                                if sig is not None:
+                                    self.violate("mismatch-crash", e, kinds,
+                                                 "argument arrays of mismatched length crash the interpreter (signal %d)" % sig,
+                                                 {"L": L, "lens": [len(s.values) if s.kind == "array" else None for s in specs]})
+                                    raise CrashFound(sig)
                             try:
                                 do_call(e, [b[0] for b in built])
                                 raised = False
@@ -1382,8 +1477,13 @@ def cmd_run(optpath, outpath):
         if prog:
             prog.write("BEGIN %s\n" % e.key)
             prog.flush()
+        global GUARD, SAFE
+        GUARD = bool(o.get("guard"))
+        SAFE = e.key in (o.get("safe_keys") or [])
         try:
-            ex.exercise(e)
+            s_ = ex.exercise(e)
+            if SAFE and isinstance(s_, dict):
+                out.put({"t": "safe-mode", "key": e.key})
         except Exception as exn:
             out.put({"t": "harness-error", "key": e.key, "error": traceback.format_exc()[-1500:]})
         if prog:
@@ -1391,7 +1491,7 @@ def cmd_run(optpath, outpath):
             prog.flush()
         done += 1
     SHIM.clear()
-    out.put({"t": "stats", "done": done, "dispatches": SHIM.total_dispatches, "ranges": SHIM.total_ranges,
+    out.put({"t": "stats", "done": done, "nan_bits_only_differences": ex.nan_only_count, "dispatches": SHIM.total_dispatches, "ranges": SHIM.total_ranges,
              "fallbacks": SHIM.total_fallbacks, "thread_exceptions": SHIM.total_thread_exc, "wall": round(time.time() - t0, 2)})
 
 
@@ -1527,6 +1627,8 @@ def cmd_model(optpath, outpath):
                         st = SHIM.take()
                         SHIM.in_worker(False)
                         SHIM.clear()
+                        if r is NotImplemented:      # this operator has no overload for an array right-hand side
+                            continue
                         real = []
                         if not inplace:
                             real.extend(list(r) if not raised else [0] * L)
